@@ -44,6 +44,10 @@ type Tape struct {
 	pos      int
 	Rec      []Decision
 	Diverged string
+	// Guard, when set, is called on every draw with the tag; the world uses
+	// it to detect draws from a goroutine that is not the released task (a
+	// source of nondeterminism in the harness itself).
+	Guard func(tag string)
 }
 
 func splitmix(x *uint64) uint64 {
@@ -76,6 +80,9 @@ func NewReplay(pre []Decision, strict bool) *Tape {
 func (t *Tape) Choose(n int, tag string) int {
 	if n <= 1 {
 		return 0
+	}
+	if t.Guard != nil {
+		t.Guard(tag)
 	}
 	var v int
 	if t.replay {
